@@ -93,7 +93,9 @@ class CBase58Data(bytes):
         k = decode(s)
         verbyte, data, check0 = k[0:1], k[1:-4], k[-4:]
         check1 = bitcoin.core.Hash(verbyte + data)[:4]
-        if check0 != check1:
+        # A valid string has a version byte and a four byte checksum; with fewer
+        # than five bytes the slices above overlap
+        if len(k) < 5 or check0 != check1:
             raise Base58ChecksumError('Checksum mismatch: expected %r, calculated %r' % (check0, check1))
 
         return cls.from_bytes(data, verbyte[0])
